@@ -35,8 +35,9 @@ Theorem C08_borrow_gate_split_valuation :
 Proof. exact borrow_gate_partial. Qed.
 Print Assumptions C08_borrow_gate_split_valuation.
 (* concrete witnesses: minimised histories found by the driver's monitors on the real keepers *)
-Definition wa_env : env := mk_env 5 4 [Some (mkMarket 100000000 800000000000000000 false 0 25000000000000000 10000000000000000 50000000000000000 2000000000000000000 800000000000000000 500000000000000000); Some (mkMarket 100000000 600000000000000000 false 0 25000000000000000 0 50000000000000000 100000000000000000 800000000000000000 5000000000000000000); Some (mkMarket 1000000 600000000000000000 false 0 500000000000000000 50000000000000000 800000000000000000 2000000000000000000 800000000000000000 10000000000000000000); Some (mkMarket 1000000000000000000 750000000000000000 false 0 50000000000000000 0 500000000000000000 1000000000000000000 800000000000000000 5000000000000000000); None] 10000000000000000000.
-Definition wa_init : state := mk_state [[100000000000000000; 100000000000000000; 1000000000000000; 1000000000000000000000000000; 1000000000000000]; [100000000000000000; 100000000000000000; 1000000000000000; 1000000000000000000000000000; 1000000000000000]; [100000000000000000; 100000000000000000; 1000000000000000; 1000000000000000000000000000; 1000000000000000]; [4000000000; 4000000000; 40000000; 40000000000000000000; 40000000]; [0;0;0;0;0]; [0;0;0;0;0]] [1083581890000704538815; 1712000000391949144; 333333333333333333; 1746000000000245087390; 0] [Some 1704067200; Some 1704067200; Some 1704067200; Some 1704067200; None].
+Definition wa_env : env := mk_env 5 4 10000000000000000000.
+Definition wa_init : state := mk_state [[100000000000000000; 100000000000000000; 1000000000000000; 1000000000000000000000000000; 1000000000000000]; [100000000000000000; 100000000000000000; 1000000000000000; 1000000000000000000000000000; 1000000000000000]; [100000000000000000; 100000000000000000; 1000000000000000; 1000000000000000000000000000; 1000000000000000]; [4000000000; 4000000000; 40000000; 40000000000000000000; 40000000]; [0;0;0;0;0]; [0;0;0;0;0]] [1083581890000704538815; 1712000000391949144; 333333333333333333; 1746000000000245087390; 0] [Some 1704067200; Some 1704067200; Some 1704067200; Some 1704067200; None]
+  [Some (mkMarket 100000000 800000000000000000 false 0 25000000000000000 10000000000000000 50000000000000000 2000000000000000000 800000000000000000 500000000000000000); Some (mkMarket 100000000 600000000000000000 false 0 25000000000000000 0 50000000000000000 100000000000000000 800000000000000000 5000000000000000000); Some (mkMarket 1000000 600000000000000000 false 0 500000000000000000 50000000000000000 800000000000000000 2000000000000000000 800000000000000000 10000000000000000000); Some (mkMarket 1000000000000000000 750000000000000000 false 0 50000000000000000 0 500000000000000000 1000000000000000000 800000000000000000 5000000000000000000); None].
 Definition wa_prefix : list op := [Deposit 0%nat [(2%nat, 3864000000)];
   Deposit 1%nat [(0%nat, 149319586)];
   Deposit 2%nat [(0%nat, 9228651)];
@@ -46,8 +47,9 @@ Definition wa_prefix : list op := [Deposit 0%nat [(2%nat, 3864000000)];
   Liquidate 0%nat 1%nat].
 Definition wa_block : op := BeginBlock 1752796800 [1000000000000000000; 1000000000000000000; 1004630961015383585; 1000000000000000000].
 
-Definition wb_env : env := mk_env 5 4 [Some (mkMarket 100000000 800000000000000000 false 0 100000000000000000 50000000000000000 0 1000000000000000000 800000000000000000 5000000000000000000); Some (mkMarket 100000000 750000000000000000 false 0 100000000000000000 50000000000000000 50000000000000000 1000000000000000000 800000000000000000 5000000000000000000); Some (mkMarket 1000000 750000000000000000 false 0 100000000000000000 10000000000000000 0 1000000000000000000 800000000000000000 500000000000000000); Some (mkMarket 1000000000000000000 500000000000000000 false 0 25000000000000000 50000000000000000 0 2000000000000000000 800000000000000000 5000000000000000000); None] 0.
-Definition wb_init : state := mk_state [[100000000000000000; 100000000000000000; 1000000000000000; 1000000000000000000000000000; 1000000000000000]; [100000000000000000; 100000000000000000; 1000000000000000; 1000000000000000000000000000; 1000000000000000]; [100000000000000000; 100000000000000000; 1000000000000000; 1000000000000000000000000000; 1000000000000000]; [4000000000; 4000000000; 40000000; 40000000000000000000; 40000000]; [0;0;0;0;0]; [0;0;0;0;0]] [618130000000000000000; 608000000629804639; 2500000000000000000; 450000000000000000; 0] [Some 1704067200; Some 1704067200; Some 1704067200; Some 1704067200; None].
+Definition wb_env : env := mk_env 5 4 0.
+Definition wb_init : state := mk_state [[100000000000000000; 100000000000000000; 1000000000000000; 1000000000000000000000000000; 1000000000000000]; [100000000000000000; 100000000000000000; 1000000000000000; 1000000000000000000000000000; 1000000000000000]; [100000000000000000; 100000000000000000; 1000000000000000; 1000000000000000000000000000; 1000000000000000]; [4000000000; 4000000000; 40000000; 40000000000000000000; 40000000]; [0;0;0;0;0]; [0;0;0;0;0]] [618130000000000000000; 608000000629804639; 2500000000000000000; 450000000000000000; 0] [Some 1704067200; Some 1704067200; Some 1704067200; Some 1704067200; None]
+  [Some (mkMarket 100000000 800000000000000000 false 0 100000000000000000 50000000000000000 0 1000000000000000000 800000000000000000 5000000000000000000); Some (mkMarket 100000000 750000000000000000 false 0 100000000000000000 50000000000000000 50000000000000000 1000000000000000000 800000000000000000 5000000000000000000); Some (mkMarket 1000000 750000000000000000 false 0 100000000000000000 10000000000000000 0 1000000000000000000 800000000000000000 500000000000000000); Some (mkMarket 1000000000000000000 500000000000000000 false 0 25000000000000000 50000000000000000 0 2000000000000000000 800000000000000000 5000000000000000000); None].
 Definition wb_prefix : list op := [Deposit 0%nat [(3%nat, 222222222222222222222222)];
   Deposit 1%nat [(0%nat, 10029678)];
   Borrow 1%nat [(3%nat, 55107954330133333330)]].
@@ -88,10 +90,33 @@ Theorem C08_liq_scope :
     (forall v, v <> b -> dep s' v = dep s v /\ bor s' v = bor s v) /\
     (forall d, (d < nd e)%nat -> bal s (hacc e) d - bal s' (hacc e) d <= amt dp d) /\
     (k <> aacc e -> k <> b -> forall d, (d < nd e)%nat ->
-       bal s' k d = bal s k d + Z.max 0 (dec_trunc_int (dec_mul_int (keeper_pct e d) (amt dp d)))) /\
+       bal s' k d = bal s k d + Z.max 0 (dec_trunc_int (dec_mul_int (keeper_pct s2 d) (amt dp d)))) /\
     (forall x d, x <> hacc e -> x <> aacc e -> x <> b -> x <> k -> bal s' x d = bal s x d).
 Proof. exact liq_scope. Qed.
 Print Assumptions C08_liq_scope.
+
+(** * parameter changes (governance) *)
+
+(* The money markets are part of the state twice: the params (changed by [SetParams]) and the
+   money-market store every handler reads.  A successful begin block leaves the store equal to
+   the params on all denoms: changed markets are copied, new ones added, removed ones dropped. *)
+Theorem C08_begin_block_syncs_markets :
+  forall e s t fs s', begin_block e s t fs = Ok s' tt ->
+  params s' = params s /\ forall d, (d < nd e)%nat -> mkts s' d = params s d.
+Proof. exact begin_block_syncs_markets. Qed.
+Print Assumptions C08_begin_block_syncs_markets.
+
+(* Hence, once the begin blocker has run, a liquidation pays the keeper exactly the share
+   configured in the params at that time (rounded down), whatever the store held before. *)
+Theorem C08_keeper_reward_from_params :
+  forall e s0 t fs s k b s',
+  begin_block e s0 t fs = Ok s tt -> liquidate e s k b = Ok s' tt ->
+  k <> hacc e -> k <> aacc e -> k <> b ->
+  exists s2 dp, sync_position e s b = Ok s2 tt /\ dep s2 b = Some dp /\
+    forall d, (d < nd e)%nat ->
+      bal s' k d = bal s k d + Z.max 0 (dec_trunc_int (dec_mul_int (pct_of (params s d)) (amt dp d))).
+Proof. exact keeper_reward_from_params. Qed.
+Print Assumptions C08_keeper_reward_from_params.
 
 (* Withdraw, borrow and repay change nobody else's records either. *)
 Theorem C08_others_untouched :
@@ -158,10 +183,10 @@ Theorem C08_begin_block_no_division_by_zero :
 Proof. intros. split; [apply util_ratio_total|apply borrow_rate_total]. Qed.
 Print Assumptions C08_begin_block_no_division_by_zero.
 
-(* hard.BeginBlocker never panics: for valid reserve factors, oracle factors >= 1 and
+(* hard.BeginBlocker never panics: for valid reserve factors (in the store and in the params), oracle factors >= 1 and
    non-negative borrowed totals, whatever cash, borrows and reserves are. *)
 Theorem C08_begin_block_no_panic :
-  forall e s t fs, env_wf e ->
+  forall e s t fs, mk_wf (mkts s) -> mk_wf (params s) ->
   (forall d, (d < nd e)%nat -> PREC <= nthZ fs d) -> (forall x, 0 <= tbor s x) ->
   exists s', begin_block e s t fs = Ok s' tt.
 Proof. exact begin_block_no_panic. Qed.
@@ -170,8 +195,9 @@ Print Assumptions C08_begin_block_no_panic.
 (* regression: the state in which the earlier code halted the chain (reserve coins lent out while
    cash = reserves, so cash + borrows = reserves with borrows > 0) is still reachable, and the next
    accruing begin block now succeeds *)
-Definition wc_env : env := mk_env 5 4 [Some (mkMarket 100000000 600000000000000000 false 0 100000000000000000 50000000000000000 0 1000000000000000000 800000000000000000 500000000000000000); Some (mkMarket 100000000 600000000000000000 false 0 50000000000000000 50000000000000000 50000000000000000 100000000000000000 800000000000000000 5000000000000000000); Some (mkMarket 1000000 800000000000000000 false 0 50000000000000000 50000000000000000 500000000000000000 1000000000000000000 800000000000000000 500000000000000000); Some (mkMarket 1000000000000000000 800000000000000000 false 0 100000000000000000 0 50000000000000000 2000000000000000000 800000000000000000 500000000000000000); None] 0.
-Definition wc_init : state := mk_state [[100000000000000000; 100000000000000000; 1000000000000000; 1000000000000000000000000000; 1000000000000000]; [100000000000000000; 100000000000000000; 1000000000000000; 1000000000000000000000000000; 1000000000000000]; [100000000000000000; 100000000000000000; 1000000000000000; 1000000000000000000000000000; 1000000000000000]; [4000000000; 4000000000; 40000000; 40000000000000000000; 40000000]; [0;0;0;0;0]; [0;0;0;0;0]] [312773780000934372881; 1000000000000000002; 1195100000950962640; 2000000000000000000000; 0] [Some 1704067200; Some 1704067200; Some 1704067200; Some 1704067200; None].
+Definition wc_env : env := mk_env 5 4 0.
+Definition wc_init : state := mk_state [[100000000000000000; 100000000000000000; 1000000000000000; 1000000000000000000000000000; 1000000000000000]; [100000000000000000; 100000000000000000; 1000000000000000; 1000000000000000000000000000; 1000000000000000]; [100000000000000000; 100000000000000000; 1000000000000000; 1000000000000000000000000000; 1000000000000000]; [4000000000; 4000000000; 40000000; 40000000000000000000; 40000000]; [0;0;0;0;0]; [0;0;0;0;0]] [312773780000934372881; 1000000000000000002; 1195100000950962640; 2000000000000000000000; 0] [Some 1704067200; Some 1704067200; Some 1704067200; Some 1704067200; None]
+  [Some (mkMarket 100000000 600000000000000000 false 0 100000000000000000 50000000000000000 0 1000000000000000000 800000000000000000 500000000000000000); Some (mkMarket 100000000 600000000000000000 false 0 50000000000000000 50000000000000000 50000000000000000 100000000000000000 800000000000000000 5000000000000000000); Some (mkMarket 1000000 800000000000000000 false 0 50000000000000000 50000000000000000 500000000000000000 1000000000000000000 800000000000000000 500000000000000000); Some (mkMarket 1000000000000000000 800000000000000000 false 0 100000000000000000 0 50000000000000000 2000000000000000000 800000000000000000 500000000000000000); None].
 Definition wc_prefix : list op := [Deposit 2%nat [(0%nat, 136643261)];
   Withdraw 2%nat [(0%nat, 79438528)];
   Borrow 2%nat [(0%nat, 26921443)];
